@@ -292,15 +292,15 @@ Lemma release_all_inv svcs node : Forall wf_cidr svcs -> wf_node node ->
 Proof.
   intros Hs Hw. induction ps as [|p ps IH]; intros m0 m2 r2 M0 H; cbn in H; [inversion H; subst; exact M0|].
   destruct (get_entry m0 p) as [c|] eqn:Eg; [|inversion H; subst; exact M0].
-  assert (Hrp : forall cs c0 c1 r0, EntryInv c0 -> Forall wf_pcidr cs -> release_pcidrs c0 cs = (c1, r0) -> EntryInv c1).
-  { clear. induction cs as [|pc cs IH]; intros c0 c1 r0 I Hw H; cbn in H; [inversion H; subst; exact I|].
+  assert (Hrp : forall cs c0 c1 r0, EntryInv c0 -> Forall wf_pcidr cs -> release_pcidrs svcs c0 cs = (c1, r0) -> EntryInv c1).
+  { clear - Hs. induction cs as [|pc cs IH]; intros c0 c1 r0 I Hw H; cbn in H; [inversion H; subst; exact I|].
     inversion Hw; subst. destruct pc as [|x canon]; [inversion H; subst; exact I|].
     destruct (cc_release c0 x) as [c2|e|] eqn:Er; try (inversion H; subst; exact I).
-    eapply IH; [eapply cc_release_inv; eassumption|assumption|exact H]. }
-  destruct (release_pcidrs c (n_cidrs node)) as [c' rr] eqn:Erp.
+    eapply IH; [apply occupy_services_inv; [eapply cc_release_inv; eassumption|exact Hs]|assumption|exact H]. }
+  destruct (release_pcidrs svcs c (n_cidrs node)) as [c' rr] eqn:Erp.
   pose proof (Hrp _ _ _ _ (get_entry_inv _ _ _ M0 Eg) Hw Erp) as I'.
   destruct rr as [[]|e|].
-  - eapply IH; [|exact H]. apply set_entry_inv; [exact M0|apply del_assoc_inv; apply occupy_services_inv; assumption].
+  - eapply IH; [|exact H]. apply set_entry_inv; [exact M0|apply del_assoc_inv; exact I'].
   - inversion H; subst. apply set_entry_inv; assumption.
   - inversion H; subst. apply set_entry_inv; assumption.
 Qed.
@@ -376,7 +376,7 @@ Proof.
   inversion H as [Hop]. rewrite <- Hop in Hp. inversion Hp as [Hq]. rewrite <- Hq. eapply new_pool_PI; eassumption.
 Qed.
 
-Lemma create_set_inv o term c : good_obj o -> create_set o term = Ok c -> (cc_v4 c <> None \/ cc_v6 c <> None) -> EntryInv c.
+Lemma create_set_inv o term st c : good_obj o -> create_set o term st = Ok c -> (cc_v4 c <> None \/ cc_v6 c <> None) -> EntryInv c.
 Proof.
   unfold create_set. intros [G4 G6] H Hs.
   destruct (mk_pool V4 (o_v4 o) (o_hb o)) as [p4|e|] eqn:E4; try discriminate.
@@ -401,7 +401,7 @@ Lemma create_cluster_cidr_inv m o term boot out m' r fx :
 Proof.
   unfold create_cluster_cidr. intros M G H.
   destruct (o_selkey o) as [k|]; [|inversion H; subst; exact M].
-  destruct (create_set o term) as [c|e|] eqn:Ec; try (inversion H; subst; exact M).
+  destruct (create_set o term boot) as [c|e|] eqn:Ec; try (inversion H; subst; exact M).
   assert (Hm : (cc_v4 c <> None \/ cc_v6 c <> None) -> MapInv (if is_mapped m k (o_name o) then m else map_set m k c)).
   { intros Hs. destruct (is_mapped m k (o_name o)); [exact M|]. apply map_set_inv; [exact M|]. eapply create_set_inv; eassumption. }
   destruct (cc_v4 c) eqn:E4, (cc_v6 c) eqn:E6; try (inversion H; subst; exact M);
